@@ -195,6 +195,8 @@ func installStr(c *Ctx) {
 	}
 	in["sort.Slice"] = sortSlice(false)
 	in["sort.SliceStable"] = sortSlice(true)
+	// clock stub: the zero instant (no property looks at a time stamp taken by the code)
+	in["time.Now"] = func(c *Ctx, a []Value) Value { return zero(c.curCallee.Signature.Results().At(0).Type()) }
 	in["internal/stringslite.Clone"] = func(c *Ctx, a []Value) Value { return a[0] }
 	in["strings.Clone"] = func(c *Ctx, a []Value) Value { return a[0] }
 	in["fmt.Sprintf"] = func(c *Ctx, a []Value) Value { return c.sprintf(a) }
